@@ -90,10 +90,30 @@ reference run of the very case, "gen" = flag set by the generator)
              when xsl:strip-space applies.  Rec 3.4.
  docorder (dyn, libxml2)  node-set sort misplaces a text/comment/PI node with
              a preceding element sibling S relative to nodes inside S.
+ libxml2-empty-pi (dyn)  comparisons involving a processing instruction
+             without data (its string-value is a NULL pointer in libxml2, not
+             equal to the empty string-value of another node).
  libxml2-strnum (dyn)  number('-') = -0, number('1e3') = 1000 (Rec: NaN).
  recovery:3.4-strip-preserve-conflict  libxslt lets strip win; Rec: the last.
  recovery:*  other recoverable errors: libxslt signals or recovers otherwise;
              the generator tries not to produce them.
+ Namespace nodes (status ns-differ: the trees agree, but some namespace URI
+ that libxslt's output has in scope on an element is not among the namespace
+ nodes / used names the Recommendation gives that element or its ancestors):
+ exclude-include (gen)  exclude-result-prefixes of an xsl:stylesheet also acts
+             on modules it INCLUDES and vice versa.  Rec 7.1.1: "a subtree
+             rooted at an xsl:stylesheet element does not include any
+             stylesheets imported or included by children of that element".
+ lre-exclude-self (gen)  xsl:exclude-result-prefixes on a literal result
+             element does not act on that element itself.  Rec 7.1.1: effective
+             "within the subtree of the stylesheet rooted at the element bearing
+             the ... attribute".
+ Only that one direction is compared because libxslt copies the inherited
+ namespace nodes only to literal result elements that are direct children of
+ xsl:template (an LRE inside xsl:if / xsl:for-each / a variable gets none),
+ drops the EXSLT namespace as if it were an extension-element namespace, and
+ does not create the namespace node for a namespace-alias result URI; cases
+ with xsl:namespace-alias are compared by expanded names only.
  Not a deviation but implementation-dependent, hence excluded the same way:
  multidoc-order (dyn)  relative order of nodes of different documents.
  Comparison artifacts removed by normalization: top-level whitespace,
@@ -102,9 +122,11 @@ reference run of the very case, "gen" = flag set by the generator)
  exponent number formatting, following:: from attributes, namespace axis
  with xmlns="", id() token order.
 
-Results (seed ranges disjoint): see the final report of the component; on
-100 000 default cases 95.9 % agree exactly, 0.5 % differ with a trigger of a
-class above, 3.6 % are XSLTUnsupported, 0 unexplained.
+Results with the final reference (disjoint seed ranges, default mode):
+100 000 cases: 96 115 agree exactly, 508 differ with a trigger of a class
+above (73 of them builtin-params, verified by emulation), 3 377
+XSLTUnsupported, 0 unexplained; --deviant 60 000 cases: 54 655 agree, 1 479
+explained, 3 866 unsupported, 0 unexplained.
 """
 import argparse
 import os
@@ -1154,7 +1176,12 @@ def run_reference(case, base, trig, emulate=()):
                     return True
         return False
 
+    def empty_pi(v):
+        return isinstance(v, list) and any(n.kind == 'pi' and not n.value for n in v)
+
     def cmp(op, a, b):
+        if empty_pi(a) or empty_pi(b):
+            trig.hit.add('libxml2-empty-pi')
         if op in ('=', '!=') and (odd_root(a) or odd_root(b)):
             trig.hit.add('root-eq-hash')
         return orig_cmp(op, a, b)
